@@ -218,6 +218,10 @@ impl Boudot2000RangeProof {
     where
         H: Digest,
     {
+        // group elements are canonical residues: F + n or F - n would be a second encoding of the same proof
+        if proof_of_s.F < 0 || proof_of_s.F >= *n {
+            return false;
+        }
         Self::verify_same_secret::<H>(
             &proof_of_s.F,
             &proof_of_s.E,
@@ -574,6 +578,10 @@ impl Boudot2000RangeProof {
     where
         H: Digest,
     {
+        // the commitment the proof is about is a canonical residue (E + n, E - n and -E raise to the same E_prime)
+        if self.E < 0 || self.E >= *n {
+            return false;
+        }
         if self.E_prime == Integer::from(self.E.pow_mod_ref(&Integer::from(2).pow(T), n).unwrap()) {
             let res_verify_ts = Self::verify_of_tolerance_specific::<H>(
                 &self.proof_of_tolerance,
